@@ -370,7 +370,7 @@ pub fn run(opts: &Opts) -> i32 {
                         });
                     }
                 }
-                Run::Panic(p) => {
+                Run::Panic(p, _ptail) => {
                     rep.violation(Violation { signature: format!("{}: {}", role.name(), p.signature()), what: format!("panic: {} at {}", p.msg, p.location), replay: json!({"role": role.name()}) });
                     after = After::RetireThread;
                     break;
@@ -425,7 +425,7 @@ pub fn run(opts: &Opts) -> i32 {
                     });
                 }
             }
-            Run::Panic(p) => rep.violation(Violation { signature: format!("{}: {}", role.name(), p.signature()), what: format!("panic: {} at {}", p.msg, p.location), replay: json!({"seed": opts.seed, "index": i}) }),
+            Run::Panic(p, _ptail) => rep.violation(Violation { signature: format!("{}: {}", role.name(), p.signature()), what: format!("panic: {} at {}", p.msg, p.location), replay: json!({"seed": opts.seed, "index": i}) }),
             Run::Livelock(tail) => rep.violation(Violation { signature: format!("{}: live-lock", role.name()), what: "step budget exhausted".into(), replay: json!({"log": tail}) }),
             Run::Watchdog => rep.inconclusive("watchdog"),
         }
